@@ -73,7 +73,8 @@ theorem lookupD_map_setKey_self {β : Type} (l : List (String × β)) (k : Strin
     · have h' : k ∈ l.map Prod.fst := by
         rw [List.map_cons, List.mem_cons] at h
         exact h.resolve_left (fun e => hpk e.symm)
-      simp only [beq_iff_eq, hpk, if_false]
+      have hb : (p.1 == k) = false := by simp [hpk]
+      simp only [hb, Bool.false_eq_true, if_false, hpk]
       exact ih h'
 
 theorem lookupD_append_single_ne {β : Type} (l : List (String × β)) (q : String × β) (k : String)
@@ -125,7 +126,7 @@ theorem keys_eraseKey {β : Type} (l : List (String × β)) (k : String) :
   induction l with
   | nil => rfl
   | cons p l ih =>
-    by_cases hpk : p.1 = k <;> simp [List.filter_cons, hpk, ih]
+    by_cases hpk : p.1 = k <;> simp [hpk, ih]
 
 theorem lookupD_eraseKey_ne {β : Type} (l : List (String × β)) (k k' : String) (d : β)
     (h : k' ≠ k) : lookupD (eraseKey l k) k' d = lookupD l k' d := by
@@ -231,7 +232,7 @@ theorem n_of_tagFirst (pa : PA) (h : (pa.props.map Col.name).head? = some "tag")
     rw [hp] at h
     have ht : t.name = "tag" := by simpa using h
     have hc : pa.col? "tag" = some t := by
-      unfold PA.col?; rw [hp]; simp [List.find?_cons, ht]
+      unfold PA.col?; rw [hp]; simp [ht]
     refine ⟨t, rest, rfl, ht, hc, ?_, ?_⟩
     · unfold PA.n; rw [hc]
     · unfold PA.tags; rw [hc]
@@ -256,5 +257,211 @@ theorem inv_iff (pa : PA) : Inv pa ↔ InvF pa.props pa.stride pa.defaults pa.n 
 theorem Inv.tags_length {pa : PA} (h : Inv pa) : pa.tags.length = pa.n := by
   obtain ⟨t, rest, _, _, _, hn, htg⟩ := n_of_tagFirst pa h.tagFirst
   rw [hn, htg]
+
+/-! ## generic ways to re-establish the invariant -/
+
+theorem map_name_map (P : List Col) (F : Col → Col) (hn : ∀ c ∈ P, (F c).name = c.name) :
+    (P.map F).map Col.name = P.map Col.name := by
+  rw [List.map_map]
+  exact List.map_congr_left (fun c hc => hn c hc)
+
+/-- every column is rewritten keeping its name; the new lengths fit `m'` particles -/
+theorem InvF.mapCols {P S D m} (h : InvF P S D m) (F : Col → Col) (m' : Nat)
+    (hn : ∀ c ∈ P, (F c).name = c.name)
+    (hg : ∀ c ∈ P, (F c).data.length = m' * lookupD S c.name 1) : InvF (P.map F) S D m' := by
+  have hnames := map_name_map P F hn
+  refine ⟨?_, by rw [hnames]; exact h.tagFirst, h.tagStride, by rw [hnames]; exact h.nodup,
+    by rw [hnames]; exact h.strideKeys, by rw [hnames]; exact h.defaultKeys⟩
+  intro c' hc'
+  obtain ⟨c, hc, rfl⟩ := List.mem_map.mp hc'
+  rw [hn c hc]
+  exact ⟨(h.len c hc).1, hg c hc⟩
+
+theorem InvP.mapCols {P S D pend m} (h : InvP P S D pend m) (F : Col → Col) (m' : Nat)
+    (hn : ∀ c ∈ P, (F c).name = c.name)
+    (hg : ∀ c ∈ P, (F c).data.length = m' * lookupD S c.name 1) :
+    InvP (P.map F) S D pend m' := by
+  have hnames := map_name_map P F hn
+  refine ⟨?_, by rw [hnames]; exact h.tagFirst, h.tagStride, by rw [hnames]; exact h.nodup,
+    h.pendStride, by rw [hnames]; exact h.strideKeys, by rw [hnames]; exact h.defaultKeys⟩
+  intro c' hc'
+  obtain ⟨c, hc, rfl⟩ := List.mem_map.mp hc'
+  rw [hn c hc]
+  exact ⟨(h.len c hc).1, hg c hc⟩
+
+theorem InvF.toP {P S D m} (h : InvF P S D m) (pend : String) (hp : pend ∈ P.map Col.name) :
+    InvP P S D pend m := by
+  refine ⟨h.len, h.tagFirst, h.tagStride, h.nodup, ?_, fun k hk => Or.inl (h.strideKeys k hk),
+    by rw [if_pos hp]; exact h.defaultKeys⟩
+  obtain ⟨c, hc, rfl⟩ := List.mem_map.mp hp
+  exact (h.len c hc).1
+
+theorem InvP.toF {P S D pend m} (h : InvP P S D pend m) (hp : pend ∈ P.map Col.name) :
+    InvF P S D m := by
+  refine ⟨h.len, h.tagFirst, h.tagStride, h.nodup, ?_, by rw [h.defaultKeys, if_pos hp]⟩
+  intro k hk
+  rcases h.strideKeys k hk with h1 | h1
+  · exact h1
+  · rw [h1]; exact hp
+
+/-- the list-level effect of `PA.setCol` -/
+def setColL (P : List Col) (c : Col) : List Col :=
+  if P.any (fun (c' : Col) => c'.name == c.name) then
+    P.map (fun (c' : Col) => if c'.name == c.name then c else c')
+  else P ++ [c]
+
+theorem setCol_props (pa : PA) (c : Col) : (pa.setCol c).props = setColL pa.props c := by
+  unfold PA.setCol setColL PA.hasProp; split <;> rfl
+theorem setCol_stride (pa : PA) (c : Col) : (pa.setCol c).stride = pa.stride := by
+  unfold PA.setCol; split <;> rfl
+theorem setCol_defaults (pa : PA) (c : Col) : (pa.setCol c).defaults = pa.defaults := by
+  unfold PA.setCol; split <;> rfl
+theorem setCol_consts (pa : PA) (c : Col) : (pa.setCol c).consts = pa.consts := by
+  unfold PA.setCol; split <;> rfl
+theorem setCol_nReal (pa : PA) (c : Col) : (pa.setCol c).nReal = pa.nReal := by
+  unfold PA.setCol; split <;> rfl
+theorem setCol_name (pa : PA) (c : Col) : (pa.setCol c).name = pa.name := by
+  unfold PA.setCol; split <;> rfl
+theorem setCol_outputs (pa : PA) (c : Col) : (pa.setCol c).outputs = pa.outputs := by
+  unfold PA.setCol; split <;> rfl
+
+theorem any_name_iff (P : List Col) (nm : String) :
+    P.any (fun (c' : Col) => c'.name == nm) = true ↔ nm ∈ P.map Col.name := by
+  rw [List.any_eq_true, List.mem_map]
+  constructor
+  · rintro ⟨c, hc, h⟩; exact ⟨c, hc, by simpa using h⟩
+  · rintro ⟨c, hc, h⟩; exact ⟨c, hc, by simp [h]⟩
+
+theorem nodup_append_single {l : List String} {a : String} (h : l.Nodup) (ha : a ∉ l) :
+    (l ++ [a]).Nodup := by
+  rw [List.nodup_append]
+  refine ⟨h, by simp, ?_⟩
+  intro x hx y hy
+  have : y = a := by simpa using hy
+  subst this
+  exact fun e => ha (e ▸ hx)
+
+theorem head?_append_of_head? {l : List String} {a : String} (h : l.head? = some a) (x : String) :
+    (l ++ [x]).head? = some a := by
+  cases l with
+  | nil => simp at h
+  | cons b l => simpa using h
+
+/-- the pending column is written (replacing an existing one or appended) -/
+theorem InvP.setCol {P S D pend m} (h : InvP P S D pend m) (c : Col) (hc : c.name = pend)
+    (hl : c.data.length = m * lookupD S pend 1) : InvF (setColL P c) S D m := by
+  unfold setColL
+  by_cases hp : pend ∈ P.map Col.name
+  · rw [if_pos ((any_name_iff P c.name).mpr (hc ▸ hp))]
+    apply (h.toF hp).mapCols
+    · intro c' _
+      by_cases he : c'.name = c.name <;> simp [he]
+    · intro c' hc'
+      by_cases he : c'.name = c.name
+      · simp only [he, beq_self_eq_true, if_true, hc]; exact hl
+      · simp only [beq_iff_eq, he, if_false]; exact (h.len c' hc').2
+  · have hany : ¬ P.any (fun (c' : Col) => c'.name == c.name) = true :=
+      fun ha => hp (hc ▸ (any_name_iff P c.name).mp ha)
+    rw [if_neg hany]
+    have hnames : (P ++ [c]).map Col.name = P.map Col.name ++ [pend] := by simp [hc]
+    refine ⟨?_, ?_, h.tagStride, ?_, ?_, ?_⟩
+    · intro c' hc'
+      rcases List.mem_append.mp hc' with h1 | h1
+      · exact h.len c' h1
+      · have : c' = c := by simpa using h1
+        subst this
+        rw [hc]; exact ⟨h.pendStride, hl⟩
+    · rw [hnames]; exact head?_append_of_head? h.tagFirst _
+    · rw [hnames]
+      exact nodup_append_single h.nodup hp
+    · intro k hk
+      rw [hnames]
+      rcases h.strideKeys k hk with h1 | h1
+      · exact List.mem_append_left _ h1
+      · simp [h1]
+    · rw [hnames, h.defaultKeys, if_neg hp]
+
+/-- an existing column is rewritten with the same length -/
+theorem InvF.setCol {P S D m} (h : InvF P S D m) (c : Col) (hp : c.name ∈ P.map Col.name)
+    (hl : c.data.length = m * lookupD S c.name 1) : InvF (setColL P c) S D m :=
+  (h.toP c.name hp).setCol c rfl hl
+
+/-- stride dict after `if stride != 1: self.stride[name] = stride` -/
+def strideSet (S : List (String × Nat)) (name : String) (stride : Nat) : List (String × Nat) :=
+  if stride != 1 then setKey S name stride else S
+
+theorem lookupD_strideSet_ne (S : List (String × Nat)) (name nm : String) (stride : Nat)
+    (h : nm ≠ name) : lookupD (strideSet S name stride) nm 1 = lookupD S nm 1 := by
+  unfold strideSet; split
+  · exact lookupD_setKey_ne S name nm stride 1 h
+  · rfl
+
+theorem lookupD_strideSet_self (S : List (String × Nat)) (name : String) (stride : Nat) :
+    lookupD (strideSet S name stride) name 1 = if stride = 1 then lookupD S name 1 else stride := by
+  unfold strideSet
+  by_cases hs : stride = 1
+  · simp [hs]
+  · have : (stride != 1) = true := by simp [hs]
+    rw [if_pos this, if_neg hs, lookupD_setKey_self]
+
+theorem keys_strideSet (S : List (String × Nat)) (name : String) (stride : Nat) :
+    ∀ k ∈ (strideSet S name stride).map Prod.fst, k ∈ S.map Prod.fst ∨ k = name := by
+  intro k hk
+  unfold strideSet at hk
+  split at hk
+  · rw [keys_setKey] at hk
+    split at hk
+    · exact Or.inl hk
+    · rcases List.mem_append.mp hk with h | h
+      · exact Or.inl h
+      · exact Or.inr (by simpa using h)
+  · exact Or.inl hk
+
+/-- first half of `add_property`: `default_values[name]` and `stride[name]` are written -/
+theorem InvF.addPropPending {P S D m} (h : InvF P S D m) (name : String) (stride : Nat) (dv : Int)
+    (h1 : 1 ≤ stride)
+    (h2 : name ∈ P.map Col.name → stride = 1 ∨ stride = lookupD S name 1 ∨ m = 0)
+    (h3 : name = "tag" → stride = 1) :
+    InvP P (strideSet S name stride) (setKey D name dv) name m := by
+  refine ⟨?_, h.tagFirst, ?_, h.nodup, ?_, ?_, ?_⟩
+  · intro c hc
+    by_cases hn : c.name = name
+    · rw [hn, lookupD_strideSet_self]
+      have hmem : name ∈ P.map Col.name := hn ▸ List.mem_map_of_mem hc
+      have hl := h.len c hc
+      rw [hn] at hl
+      by_cases hs : stride = 1
+      · rw [if_pos hs]; exact hl
+      · rw [if_neg hs]
+        rcases h2 hmem with h' | h' | h'
+        · exact absurd h' hs
+        · rw [h']; exact hl
+        · refine ⟨by omega, ?_⟩
+          rw [hl.2, h']; simp
+    · rw [lookupD_strideSet_ne S name c.name stride hn]; exact h.len c hc
+  · by_cases hn : "tag" = name
+    · rw [← hn, lookupD_strideSet_self, if_pos (h3 hn.symm)]; exact h.tagStride
+    · rw [lookupD_strideSet_ne S name "tag" stride hn]; exact h.tagStride
+  · rw [lookupD_strideSet_self]
+    by_cases hs : stride = 1
+    · rw [if_pos hs]
+      by_cases hmem : name ∈ P.map Col.name
+      · obtain ⟨c, hc, rfl⟩ := List.mem_map.mp hmem
+        exact (h.len c hc).1
+      · rw [lookupD_of_not_mem S name 1 (fun hk => hmem (h.strideKeys name hk))]; omega
+    · rw [if_neg hs]; omega
+  · intro k hk
+    rcases keys_strideSet S name stride k hk with h' | h'
+    · exact Or.inl (h.strideKeys k h')
+    · exact Or.inr h'
+  · rw [keys_setKey, h.defaultKeys]
+
+theorem lookupD_strideSet_new {P S D m} (h : InvF P S D m) (name : String) (stride : Nat)
+    (hn : name ∉ P.map Col.name) : lookupD (strideSet S name stride) name 1 = stride := by
+  rw [lookupD_strideSet_self]
+  split
+  · rename_i hs
+    rw [lookupD_of_not_mem S name 1 (fun hk => hn (h.strideKeys name hk)), hs]
+  · rfl
 
 end PysphVerif.PArray
